@@ -79,9 +79,33 @@ func runC15(c *Ctx) {
 			r.Check(mustPass(fn, blk, lE) && mustPass(fn, blk, rE), "C15.error-discipline.both-tested", c.ipos(e.Instr), "the node hash is computed only after both recursive calls returned no error")
 		default:
 			// error returns: must carry a recursive call's error and a nil hash
-			_, okL := ana.Match("ext#1("+self+"(p0, slice(p1, 0, _)))", et)
-			_, okR := ana.Match("ext#1("+self+"(p0, slice(p1, _, none)))", et)
-			r.Check((okL || okR) && vt.Is("nil"), "C15.error-discipline.propagated", c.ipos(e.Instr), "error return = the recursive call's error with a nil hash: %s", short(et.String(), 140))
+			// each returned error is the error of the recursive call that failed: directly, or merged by a phi whose
+			// incoming edges each come from the failure branch of the call whose error they carry
+			patL := "ext#1(" + self + "(p0, slice(p1, 0, _)))"
+			patR := "ext#1(" + self + "(p0, slice(p1, _, none)))"
+			failL := plainEdges(edgesMatching(b, "bin<!=>("+patL+", nil)"))
+			failR := plainEdges(edgesMatching(b, "bin<!=>("+patR+", nil)"))
+			okProp := false
+			if _, okL := ana.Match(patL, et); okL {
+				okProp = mustPass(fn, blk, failL)
+			} else if _, okR := ana.Match(patR, et); okR {
+				okProp = mustPass(fn, blk, failR)
+			} else if phi, isPhi := e.Results[1].(*ssa.Phi); isPhi {
+				okProp = len(phi.Edges) > 0
+				for i, ev := range phi.Edges {
+					pt := b.Of(ev, phi)
+					edge := ana.Edge{From: phi.Block().Preds[i], To: phi.Block()}
+					switch {
+					case matches(patL, pt):
+						okProp = okProp && edgeMustPass(fn, edge, failL)
+					case matches(patR, pt):
+						okProp = okProp && edgeMustPass(fn, edge, failR)
+					default:
+						okProp = false
+					}
+				}
+			}
+			r.Check(okProp && vt.Is("nil"), "C15.error-discipline.propagated", c.ipos(e.Instr), "error return = the error of the recursive call that failed, with a nil hash: %s", short(et.String(), 140))
 		}
 	}
 	r.Check(nEmpty == 1 && nLeaf == 1 && nNode == 1, "C15.shape.exits", c.P.Pos(fn.Pos()), "exactly one empty, one leaf and one node exit (found %d/%d/%d)", nEmpty, nLeaf, nNode)
@@ -121,7 +145,14 @@ func runC15(c *Ctx) {
 			nRet++
 			t := sb.Of(e.Results[0], e.Instr)
 			core := "bin<->(call<math/bits.Len>(conv<uint>(bin<->(p0, 1))), 1)"
-			_, ok := ana.MatchAny(t, "bin<<<>(1, bin<&>("+core+", "+ws+"))", "bin<<<>(1, "+core+")", "bin<<<>(1, conv<uint>("+core+"))", "bin<<<>(1, bin<&>(conv<uint>("+core+"), "+ws+"))")
+			// Len(y) = W − LeadingZeros(y), so 1 << (Len(y)−1) = 2^(W−1) >> LeadingZeros(y)
+			top := "9223372036854775808"
+			if c.wordBits() == 32 {
+				top = "2147483648"
+			}
+			lz := "bin<>>>(" + top + ", call<math/bits.LeadingZeros>(conv<uint>(bin<->(p0, 1))))"
+			_, ok := ana.MatchAny(t, "bin<<<>(1, bin<&>("+core+", "+ws+"))", "bin<<<>(1, "+core+")", "bin<<<>(1, conv<uint>("+core+"))", "bin<<<>(1, bin<&>(conv<uint>("+core+"), "+ws+"))",
+				lz, "conv<int>("+lz+")")
 			r.Check(ok, "C15.split-helper.term", c.ipos(e.Instr), "split(n) = 1 << ((bits.Len(uint(n-1)) - 1) [& %s]): %s", ws, t)
 		}
 		nBranch := len(sb.CondEdges()) / 2
